@@ -55,6 +55,7 @@ func (m *machine) transport(r *simrt.Request) (int, error) {
 		m.acked[week] = append(m.acked[week], ack{week: week, body: string(r.Body), seq: r.Seq})
 		r.Delivered++
 	}
+	m.s.FaultsHit[[]string{"server:200", "server:4xx", "server:5xx", "server:no-answer", "server:processed-answer-lost", "server:delivered-twice"}[fate]]++
 	switch fate {
 	case 0:
 		accept()
